@@ -1,0 +1,61 @@
+//go:build verif
+
+// Add-only hooks for the verification harness in /verif (property C19), second file:
+// registration of tracks while the channel goroutine processes chunk messages of another track.
+// No behaviour of the package is changed.
+package app
+
+import (
+	"context"
+	"sync"
+	"time"
+)
+
+// VerifRegisterWhileReceiving creates a channel as ChannelMgr does (its goroutine runs), registers
+// the first track, and then, released by one barrier, one goroutine sends nrMsgs chunk messages of
+// that track to the channel goroutine (what the upload callback does for every chunk) while one
+// goroutine per further track registers it nrRegs times (init segment and re-sent init segments).
+// It returns false if not everything finished within the watchdog time (an upload that never returns
+// or a channel goroutine that no longer takes messages), and the resulting track table.
+func VerifRegisterWhileReceiving(names, contentTypes []string, nrMsgs, nrRegs int, watchdog time.Duration) (bool, VerifTrackTable) {
+	ctx, cancel := context.WithCancel(context.Background())
+	defer cancel()
+	ch := newChannel(ctx, ChannelConfig{Name: "verif"}, "")
+	ch.addTrData(&trData{name: names[0], contentType: contentTypes[0]})
+	start := make(chan struct{})
+	var wg sync.WaitGroup
+	wg.Add(1)
+	go func() {
+		defer wg.Done()
+		<-start
+		for i := 0; i < nrMsgs; i++ {
+			ch.addChunkData(recSegData{name: names[0], seqNr: uint32(1 + i/2), chunkNr: uint32(1 + i%2)})
+		}
+	}()
+	for i := 1; i < len(names); i++ {
+		wg.Add(1)
+		go func(i int) {
+			defer wg.Done()
+			<-start
+			for k := 0; k < nrRegs; k++ {
+				ch.addTrData(&trData{name: names[i], contentType: contentTypes[i]})
+			}
+		}(i)
+	}
+	done := make(chan struct{})
+	go func() {
+		close(start)
+		wg.Wait()
+		// the channel goroutine must have taken everything: send cap+1 more messages of an unknown track
+		for i := 0; i < cap(ch.recSegCh)+1; i++ {
+			ch.recSegCh <- recSegData{name: verifSyncTrack}
+		}
+		close(done)
+	}()
+	select {
+	case <-done:
+		return true, verifTrackTable(ch)
+	case <-time.After(watchdog):
+		return false, VerifTrackTable{}
+	}
+}
